@@ -31,11 +31,13 @@ func init() {
 		Rule: "failing programs: generated core programs with a buried ill-typed / wrong-arity / unbound / error form (every position class the generator reaches: argument, operator position, binding initialiser, body, handler expression and body, callbacks of map/foldl/select, nested call depth), and macro templates (failing form written in the template vs built by the macro without position), rendered with random layout (newlines, indentation, comments) so spans move; " +
 			"the family 'handler work before rethrow' puts handlers between the failing form of any of those programs and the host (top-level forms and function bodies wrapped in handler-bind) whose handlers do work before (rethrow) - a nested handler-bind whose body succeeds / whose own binding handles its error / whose error matches no binding and is swallowed by ignore-errors, a helper that uses handler-bind, tail loops, a nested rethrow that is caught or ignored - as the last form, under progn/let/if, through several layers, or from a handler nested up to three deep inside running handlers that failed anew; the host's error keeps location, trace, condition and (for `error`) data; " +
 			"the family 'where in an expansion the position-less node sits' (c18_expansion.go) enumerates slot (let / let* initialiser, flet / labels / macrolet body, handler expression and body, dotimes count and result, cond test and clause body, a let nested in an initialiser; plain argument, lambda body and the expansion's root as controls) x spelling of the lists between the expansion's root and the slot (parens, bracket entries, bracket list, both, made by list / cons / append / concat) x builder (defmacro / macrolet template with the node spliced in by unquote, template whose entry is computed by (list ..), expansion made entirely by list calls, host Go macro registered through AddMacros building with lisp.SExpr / lisp.QExpr / lisp.Symbol; optionally behind an outer macro) and samples failure kind (unbound generated symbol; for host macros also type, arity, `error`), one to four call sites of the macro in different contexts (earlier uses succeed or are swallowed, the last fails); two sub-classes let a position-less value reach the expansion by a route of its own (the root is a tail / slice of a quoted literal; a generated symbol made once and spliced into every expansion); " +
+			"the family 'one error, several consumers' (c18_consumers.go) wraps the forms of the same failing programs in handlers that hand the very error they are handling to further consumers before it goes on - (ignore-errors (rethrow)) directly, in a callee, after work, repeatedly; a nested handler-bind whose handler is called with it; a nested handler rethrowing it into ignore-errors; (verif:capture), a host function keeping it - with other errors raised under more or fewer frames and swallowed, handled or kept in between (none, one, up to ten), and then rethrow it to the host, through further layers, to an outer handler that keeps it and recovers, or out into an ignore-errors form; the host's error AND every error a handler kept, read again after the load returned, have the model's location and trace; " +
 			"distinct_nontrivial counts distinct (error class, innermost three frame kinds, position-in-source class) signatures",
 		Assumptions: []string{
 			"a function call is active from application (after its arguments were evaluated); special operators are active while their sub-forms run; a macro only during expansion",
 			"site classes judged: unbound symbol -> the symbol; error / argument rejection by a function or operator -> the call expression; template-written forms keep their position; forms a macro builds without position take the macro call site. Other error classes (head not a function, malformed special forms, errors under thread-first/last whose calls are built without position) must lie inside the source and inside the failing top-level form, nothing more",
 			"docs/lang.md 'Rethrowing Errors': (rethrow) re-raises the error the innermost running handler was called with, with its original trace and condition data, whatever handler-bind / ignore-errors forms began and ended while that handler ran; a changed condition is blamed on the handlers' work only when a control (same handlers, work left out) delivers the model's condition",
+			"(rethrow) hands on the error object the handler was called with; an error that a handler or a host function received keeps location and trace whatever another consumer (an ignore-errors form swallowing it, a nested handler called with it, an outer handler) does when it is done with it, also when it is read after the load returned (property: 'a handler or the embedding host receives location and trace unchanged, also after rethrow')",
 			"a position-less node of an expansion takes the call site of the macro call whose expansion is being evaluated, whatever list of the expansion it sits in (paren, bracket, lisp.QExpr, a list made by list / cons at expansion time) and however it got there: the list header that cdr / rest / slice return is a new, position-less node even when its elements are a literal's, and a position-less value spliced into several expansions takes the call site of each (the model stamps a copy)",
 			"a callee invoked by a builtin function on the program's behalf (callbacks of map, foldl, select, funcall, apply, stable-sort, ...) is called from that builtin's call expression, with and without elimination; for handlers and for all?/any? (which evaluate a call expression they build themselves, without position) only the callee's order and name are compared",
 		},
